@@ -15,7 +15,7 @@ for log in sys.argv[2:]:
             ver[m.group(1)] = m.group(2)
 EXTRA = {"C11/m3": ["C01"], "C03/m2": ["C17"], "C03/m3": ["C17"], "C10/m1": ["C02"], "C04/m1": ["C17"], "C01/m2": ["C02"]}
 if SUFFIX.startswith("r8"):
-    EXTRA = {}
+    EXTRA = {"C04/m1": ["C15"], "C03/m1": ["C08"]}
 elif SUFFIX.startswith("r7"):
     EXTRA = {"C07/m1": ["C18"], "C08/m2": ["C09"], "C11/m1": ["C12"], "C19/m1": ["C12"]}
 elif SUFFIX.startswith("r6"):
